@@ -33,7 +33,7 @@ ASSUMPTIONS = [
     'optimizers needing absent libraries (polychord, dypolychord) and plugin components (ace, BHMie) cannot be discovered here and are not judged',
     'CLI differential: taurex.taurex.main() run in-process with -i -o -S on files the harness wrote (pickle cross-sections, pickle CIA); spectrum compared with the same components built through the library, rtol 1e-9',
 ]
-RULE = RULE + ' ' + 'Also: composite tempscalar+<base> selectors with drawn scale factor and zero-valued keys, mis-cased contribution sections, [Binning] sections for the program run, the file temperature (and pressure) profile with its documented keys, numbers written with a capital E or a leading plus; cases stratified by part and variant.'
+RULE = RULE + ' ' + 'Also: composite tempscalar+<base> selectors with drawn scale factor and zero-valued keys, mis-cased contribution sections, [Binning] sections for the program run, the file temperature (and pressure) profile with its documented keys, numbers written with a capital E or a leading plus; cases stratified by part and variant. Round 9: the custom class comes in through python_file or through a folder named under [Global] (extension_paths, and the documented spelling extension_path) and its own keyword.'
 REQUIRED = {'cli-binning:native-with-observation': 0.015, 'cli-binning:manual': 0.04, 'negative:miscased-contribution': 0.012, 'mixin-zero-valued-key': 0.012, 'two-mixins': 0.006, 'zero-valued-key': 0.05, 'part:sections': 0.12, 'part:cli': 0.06, 'part:selectors': 0.002, 'part:retrieval': 0.06, 'part:cli-retrieval': 0.03, 'negative': 0.05}
 # coverage-guided extra (thorough tier): pure-Python taurex modules on this property's path, instrumented by atheris
 FUZZ = {'include': ['taurex.parameter', 'taurex.util.util'], 'runs': 6000, 'workers': 4}
@@ -360,10 +360,19 @@ class Recorder:
 _ORDER_MIXINS = []
 
 
+_FACTORY_RELOADED = []
+
+
 def load_order_mixins():
     """two temperature mixins of the harness (the documentation's doubler and add50), registered once through the
     public plug-in entry of the class factory"""
     if _ORDER_MIXINS:
+        # a reload of the class factory forgets plugins; the one reload this module causes itself (a folder named under [Global],
+        # flagged by check()) is made good here - any other loss of registered classes is the code's doing and must show
+        if _FACTORY_RELOADED:
+            from taurex.parameter.classfactory import ClassFactory
+            ClassFactory().load_plugin(_ORDER_MIXINS[0])
+            del _FACTORY_RELOADED[:]
         return
     import types
     from taurex.mixin import TemperatureMixin
@@ -739,9 +748,18 @@ def check_sections(out, c, tmp, run_cli):
                     '    def __init__(self, planet_mass=1.0, planet_radius=1.0, tag=3.0):\n'
                     '        super().__init__(planet_mass=planet_mass, planet_radius=planet_radius)\n        self.tag = tag\n\n'
                     '    @classmethod\n    def input_keywords(cls):\n        return ["myplanet"]\n')
+        # the two documented ways of bringing one's own class in (custom.rst): python_file under the section, or a folder
+        # named under [Global] (the text spells the key extension_path, the code reads extension_paths) and the class's keyword
+        via = ('python_file', 'extension_paths', 'extension_path')[c['miscase'] % 3]
+        out.cls('custom-class:' + via)
+        if via != 'python_file':
+            os.makedirs(os.path.join(tmp, 'ext'))
+            os.rename(py, os.path.join(tmp, 'ext', 'mytemp.py'))
+            lines.insert(1, '%s = %s' % (via, os.path.join(tmp, 'ext')))
         i = lines.index('[Temperature]')
         j = lines.index('', i)
-        lines[i + 1:j] = ['profile_type = custom', 'python_file = %s' % py, 'extra = 5', 'T = 1234']
+        lines[i + 1:j] = ['profile_type = custom', 'python_file = %s' % py, 'extra = 5', 'T = 1234'] if via == 'python_file' \
+            else ['profile_type = myiso', 'extra = 5', 'T = 1234']
         for k in ('Isothermal', 'Guillot2010', 'NPoint'):
             expect.pop(k, None)
         if c['boolform'] % 2 == 0:
@@ -749,7 +767,8 @@ def check_sections(out, c, tmp, run_cli):
             out.cls('two-custom-sections')
             i = lines.index('[Planet]')
             j = lines.index('', i)
-            lines[i + 1:j] = ['planet_type = custom', 'python_file = %s' % py, 'planet_mass = 1.25', 'tag = 8']
+            lines[i + 1:j] = ['planet_type = custom', 'python_file = %s' % py, 'planet_mass = 1.25', 'tag = 8'] if via == 'python_file' \
+                else ['planet_type = myplanet', 'planet_mass = 1.25', 'tag = 8']
             expect.pop('Planet', None)
     if any(l.startswith('profile_type = tempscalar') for l in lines):
         out.cls('mixin-selector')
@@ -854,7 +873,7 @@ def check_sections(out, c, tmp, run_cli):
         out.applies('custom-class')
         if type(tp).__name__ != 'MyIso' or getattr(tp, 'extra', None) != 5.0 or getattr(tp, 'T', None) != 1234.0:
             out.fail('custom-class', 'custom temperature class: got %s extra=%r T=%r' % (type(tp).__name__, getattr(tp, 'extra', None), getattr(tp, 'T', None)))
-        if any(l.startswith('planet_type = custom') for l in lines):
+        if any(l.startswith(('planet_type = custom', 'planet_type = myplanet')) for l in lines):
             pl_ = model.planet
             if type(pl_).__name__ != 'MyPlanet' or getattr(pl_, 'tag', None) != 8.0:
                 out.fail('custom-class@second-section', 'custom planet from the same file: got %s tag=%r' % (type(pl_).__name__, getattr(pl_, 'tag', None)))
@@ -1442,4 +1461,9 @@ def check(case):
     finally:
         synth.reset_world()
         shutil.rmtree(tmp, ignore_errors=True)
+        from taurex.parameter.classfactory import ClassFactory
+        if ClassFactory().extension_paths:
+            # a folder named under [Global] stays with the (process-wide) class factory: forget it
+            ClassFactory().extension_paths = []
+            _FACTORY_RELOADED.append(True)
     return out
